@@ -99,7 +99,7 @@ def _e2e(policy, estimands, name):
     def e2e(h):
         """__init__ then get_units on the real code: every feed unit (and, under 'zero', every baseline unit)
         is in exactly one of the three frames, exactly once, with its live count."""
-        root, base, feed, s = C09._feed_and_baseline(h, estimands)
+        root, base, feed, s = C09._feed_and_baseline(h, estimands, nullable_results=True)
         est = h.obj(f"{C09.EST}.Estimandizer")
         kind, pre = h.call_method(est, "add_estimand_baselines", base, {e: e for e in estimands}, False)
         if kind == "raise":
@@ -108,8 +108,10 @@ def _e2e(policy, estimands, name):
         kind, r = h.call_method(obj, "__init__", pre, feed, list(estimands), "county", handle_unreporting=policy)
         if kind == "raise":
             return h.fail("init.no_raise", f"raised {r}")
-        # V7 (key consistency): a feed row whose id is in the baseline carries the baseline's postal code
-        h.requires("V7", z3.Implies(z3.And(s["inFeed"], s["inBase"]), s["pc_b"] == s["pc_f"]))
+        if policy == "zero":
+            # V7 (key consistency), needed under 'zero' only: a feed row whose id is in the baseline carries the
+            # baseline's postal code (otherwise the zero-filled baseline row shadows the feed row)
+            h.requires("V7", z3.Implies(z3.And(s["inFeed"], s["inBase"]), s["pc_b"] == s["pc_f"]))
         thr, lo, hi, zt = h.real("thr"), h.real("tf_lower"), h.real("tf_upper"), h.real("z_threshold")
         fit_m, fit_t = h.bool("fit_margin_outlier_model"), h.bool("fit_turnout_outlier_model")
         from contracts.common import symlist
@@ -125,14 +127,32 @@ def _e2e(policy, estimands, name):
         facts = z3.And(*root.facts())
         universe = s["inFeed"] if policy == "drop" else z3.Or(s["inFeed"], s["inBase"])
         total = rep.axis.multiplicity() + nonrep.axis.multiplicity() + third.axis.multiplicity()
-        h.ensures("every_unit_exactly_once", z3.Implies(z3.And(facts, universe), total == 1))
+        def rp(ev):
+            def val(k):
+                nl = s["nulls"].get(k)
+                if nl is not None and ev(nl):
+                    return None
+                return float(ev(s[k]))
+
+            unit_ = {"inBase": ev(s["inBase"]), "inFeed": ev(s["inFeed"]), "pc_b": ev(s["pc_b"]) or "AA", "pc_f": ev(s["pc_f"]) or "AA", "pev": float(ev(s["percent_expected_vote"]))}
+            if ev(s["pc_b"]) != ev(s["pc_f"]) and unit_["pc_b"] == unit_["pc_f"]:
+                unit_["pc_f"] = "BB"
+            for k in ("baseline_turnout", "baseline_dem", "baseline_gop"):
+                unit_[k] = float(ev(s[k]))
+            for k in ("results_turnout", "results_dem", "results_gop"):
+                unit_[k] = val(k)
+            want = 1 if (unit_["inFeed"] or (policy == "zero" and unit_["inBase"])) else 0
+            return {"target": "verif_replays:partition_replay", "args": [unit_, policy, list(estimands)], "kwargs": {"thr": float(ev(thr)), "lo": float(ev(lo)), "hi": float(ev(hi))}, "check": f"result['exc'] is None and result['count'] == {want}"}
+
+        h.ensures("every_unit_exactly_once", z3.Implies(z3.And(facts, universe), total == 1), replay=rp)
         h.ensures("no_unit_from_nowhere", z3.Implies(z3.And(facts, z3.Not(z3.Or(s["inFeed"], s["inBase"]))), total == 0))
         # the live count travels with the unit
         for e in estimands:
             src = {"turnout": s["results_turnout"], "dem": s["results_dem"], "gop": s["results_gop"]}[e]
             for f_, nm in ((rep, "rep"), (nonrep, "nonrep"), (third, "third")):
                 c = f_.col(f"results_{e}")
-                h.ensures(f"live_count_kept.{nm}.{e}", z3.Implies(z3.And(*f_.axis.facts(), s["inFeed"]), z3.And(c.t == src, z3.Not(c.nan) if c.nan is not None else True)))
+                isnull = s["nulls"].get(f"results_{e}", z3.BoolVal(False))
+                h.ensures(f"live_count_kept.{nm}.{e}", z3.Implies(z3.And(*f_.axis.facts(), s["inFeed"], z3.Not(isnull)), z3.And(c.t == src, z3.Not(c.nan) if c.nan is not None else True)))
 
     return e2e
 
